@@ -770,14 +770,31 @@ bool client::try_parse_epsv_reply(const reply & reply, std::uint16_t & port)
         return false;
     }
 
-    /* Skip the "(|||" and ")" parts. */
-    begin += 4;
-    --end;
-
-    if (begin >= end)
+    /* Check the "(<d><d><d>" and "<d>)" parts, where <d> is a delimiter
+     * character in the range of ASCII 33-126.
+     */
+    if (end - begin < 6)
     {
         return false;
     }
+
+    char delimiter = status_string[begin + 1];
+
+    if (delimiter < 33 || delimiter > 126)
+    {
+        return false;
+    }
+
+    if (status_string[begin + 2] != delimiter ||
+        status_string[begin + 3] != delimiter ||
+        status_string[end - 1] != delimiter)
+    {
+        return false;
+    }
+
+    /* Skip the "(<d><d><d>" and "<d>)" parts. */
+    begin += 4;
+    --end;
 
     std::string_view port_str = status_string.substr(begin, end - begin);
     return utils::try_parse_uint16(port_str, port);
